@@ -302,6 +302,8 @@ def rule_sdl_details(ctx):
         def sources_of(local_expr):
             """(fields referenced, filter methods) on the way a local collection is filled"""
             fields, filt = set(), set()
+            while local_expr.get('k') in ('ref', 'wrap') and 'e' in local_expr:
+                local_expr = local_expr['e']      # `append(&mut ids)`
             hid = local_expr['res'].get('hid') if local_expr.get('k') == 'path' and local_expr['res'].get('r') == 'local' else None
             exprs = [local_expr]
             if hid:
